@@ -4,6 +4,7 @@ pub mod c01;
 pub mod c02;
 pub mod c04;
 pub mod c06;
+pub mod c08;
 
 /// Instantiates a generic scenario function for a named (key, value) pair of the element menu.
 #[macro_export]
@@ -62,6 +63,7 @@ pub fn dispatch(c: &mut Ctx) -> bool {
         "C02" => c02::run(c),
         "C04" => c04::run(c),
         "C06" => c06::run(c),
+        "C08" => c08::run(c),
         _ => return false,
     }
     true
